@@ -199,3 +199,39 @@ var FirstError = &core.Rule{Name: "R-FIRSTERROR", Run: func(p *core.Prog) *core.
 	}
 	return res
 }, Doc: "restoreStacks keeps the first exception thrown by an iterator's return()"}
+
+// R-ENUMOWNER (C11 "a forwarding Proxy equals its target", C04): for-in walks the prototype chain
+// (recursivePropIter) underneath a filter for enumerability (enumerableIter) that only knows the
+// object the enumeration started on. A key that comes without its property value and without a
+// known enumerability - which is what a Proxy's key iterator yields - has to be resolved by
+// [[GetOwnProperty]] on the object it belongs to, i.e. inside the chain walk, where the current
+// level is known; resolved on the start object it is simply not found, and every key inherited
+// through a Proxy in the prototype chain disappears from for-in.
+var EnumOwner = &core.Rule{Name: "R-ENUMOWNER", Run: func(p *core.Prog) *core.Result {
+	res := core.NewResult("R-ENUMOWNER", 1)
+	f, err := p.GojaMethod("recursivePropIter", "next")
+	if err != nil {
+		return res.Fail(err)
+	}
+	oF, err := p.Field(core.GojaPath, "recursivePropIter", "o")
+	if err != nil {
+		return res.Fail(err)
+	}
+	key := "(*recursivePropIter).next:unresolved keys are looked up on the level they came from"
+	ok := false
+	core.AllInstrs(f, func(in ssa.Instruction) {
+		c, isCall := in.(*ssa.Call)
+		if !isCall || !c.Call.IsInvoke() || !strings.HasPrefix(c.Call.Method.Name(), "getOwnProp") {
+			return
+		}
+		if ld, isLd := c.Call.Value.(*ssa.UnOp); isLd && core.FieldOf(ld.X) == oF {
+			ok = true
+		}
+	})
+	if ok {
+		res.OK(key, p.Pos(f.Pos()), "getOwnProp* is invoked on the current level (i.o)")
+	} else {
+		res.Bad(key, p.Pos(f.Pos()), "the chain walk hands on keys without value and enumerability unresolved; the enumerable filter resolves them on the object the for-in started on, where an inherited key does not exist: keys inherited through a Proxy in the prototype chain are dropped")
+	}
+	return res
+}, Doc: "the prototype-chain walk of for-in resolves keys of unknown enumerability on the object they belong to"}
